@@ -7,6 +7,7 @@ PAT="${1:-seeded/C*}"
 for d in $PAT; do
   [ -f "$d/patch.diff" ] || continue
   id=$(basename "$d" | cut -d- -f1)
+  if grep -q '"superseded_by_fix"' "$d/meta.json" 2>/dev/null; then echo "$d superseded-by-fix (skipped)"; continue; fi
   COPY="$(mktemp -d /dev/shm/hv-reseed-XXXXXX)"
   rsync -a --exclude .git --exclude '__pycache__' /repo/ "$COPY/"
   if ! (cd "$COPY" && patch -p1 -s < "$OLDPWD/$d/patch.diff"); then echo "$d patch-failed"; rm -rf "$COPY"; continue; fi
